@@ -371,8 +371,11 @@ class SymbolGraph(metaclass=SingletonMeta):
         wrapped_instance = self.get_wrapped_instance(wrapped_instance)
         if not wrapped_instance:
             return
+        # an instance that died since the last sweep still has its node and edges: they relate nothing any more
         yield from (
-            edge for _, _, edge in self._instance_graph.in_edges(wrapped_instance.index)
+            edge
+            for _, _, edge in self._instance_graph.in_edges(wrapped_instance.index)
+            if edge.source.instance is not None and edge.target.instance is not None
         )
 
     def get_outgoing_relations_with_type(
@@ -415,9 +418,11 @@ class SymbolGraph(metaclass=SingletonMeta):
         wrapped_instance = self.get_wrapped_instance(wrapped_instance)
         if not wrapped_instance:
             return
+        # an instance that died since the last sweep still has its node and edges: they relate nothing any more
         yield from (
             edge
             for _, _, edge in self._instance_graph.out_edges(wrapped_instance.index)
+            if edge.source.instance is not None and edge.target.instance is not None
         )
 
     def to_dot(
